@@ -169,10 +169,10 @@ def truncated_views(model, linemap, k):
 
 # ----------------------------------------------------------------------------- observers (inside simulated processes)
 
-def load_rules_text(text):
+def load_rules_text(text, mode='first_match'):
     from tally import merchant_engine as me
     try:
-        e = me.parse_merchants(text)
+        e = me.parse_merchants(text, match_mode=mode)
     except me.MerchantParseError as ex:
         return {'error': str(ex), 'line': ex.line_number, 'type': 'MerchantParseError'}
     except Exception as ex:
@@ -254,6 +254,13 @@ def execute(case, scratch):
             res = in_proc(world, ctlp, fn)
             count['layout_checks'] += 1
             log.append(['layout', kind, util.digest(res)])
+            if kind == 'rules' and res.get('ok') == f['expected']:
+                # what is read is determined by the file alone - not by the rule mode the engine will match under
+                res2 = in_proc(world, ctlp, lambda t=f['text']: load_rules_text(t, 'most_specific'))
+                count['layout_checks'] += 1
+                log.append(['layout-most-specific', util.digest(res2)])
+                if res2.get('ok') != f['expected']:
+                    res = res2
             if res.get('ok') != f['expected']:
                 violations.append({'invariant': 'LAY', 'signature': {'kind': kind, 'outcome': 'error' if 'error' in res else 'different-structure'},
                                    'witness': 'uncorrupted %s rendering does not parse to its model: got %s' % (kind, util.canon(res)[:400]),
